@@ -63,12 +63,19 @@ func firstTree(files map[string]string, name string) *tree.Tree {
 
 var libTemplates = []detTemplate{
 	{name: "lib-removetips-indexed", lib: func(f map[string]string, c *DetCase) (string, error) {
-		t := firstTree(f, "one.nw")
+		// a binary tree, indexed, from which about half of the tips are removed in one call (removals that collapse nodes next to each other)
+		t := firstTree(f, "bin.nw")
 		if err := t.ReinitIndexes(); err != nil {
 			return "", err
 		}
 		names := sortedTipNames(t)
-		err := t.RemoveTips(false, names[0], names[len(names)/2], names[len(names)-1], names[1])
+		var rm []string
+		for i, n := range names {
+			if (i+c.Seed)%2 == 0 && len(names)-len(rm) > 3 {
+				rm = append(rm, n)
+			}
+		}
+		err := t.RemoveTips(false, rm...)
 		return t.Newick(), err
 	}},
 	{name: "lib-removetips-clone-revert", lib: func(f map[string]string, c *DetCase) (string, error) {
